@@ -31,6 +31,21 @@ ASSUMPTIONS = ["resolution does not validate arguments against definitions (not 
 # ------------------------------------------------------------------ generation
 
 
+def respell(t):
+    """The same type(s) in the other spelling of unit sums."""
+    if isinstance(t, list):
+        return [respell(x) for x in t]
+    if not isinstance(t, dict):
+        return t
+    if t.get("k") == "bool":
+        return {"k": "sum", "rows": [[], []]}
+    if t.get("k") == "unit":
+        return {"k": "sum", "rows": [[]]}
+    if t.get("k") == "unitsum":
+        return {"k": "sum", "rows": [[] for _ in range(t["n"])]}
+    return {k: respell(v) for k, v in t.items()}
+
+
 @st.composite
 def cases(draw, tier="quick"):
     n_ext = draw(st.integers(1, 3))
@@ -91,7 +106,15 @@ def cases(draw, tier="quick"):
         args = draw(st.lists(st.one_of(T.map(lambda t: {"k": "type", "t": t}), st.lists(T.map(lambda t: {"k": "type", "t": t}), max_size=2).map(lambda es: {"k": "seq", "es": es}), asts.args(0)), max_size=2))
         if kind == "pool":
             en, on = draw(st.sampled_from(all_ops))
-            ops.append({"ext": en, "name": on, "i": i, "o": o, "args": args, "desc": draw(asts.DESCS)})
+            od = next(x for e in pool if e["name"] == en for x in e["ops"] if x["name"] == on)
+            if od["params"] == [] and draw(st.integers(0, 2)) == 0:
+                # the node's signature is the definition's monomorphic one, written differently where the data
+                # model has two spellings of one type (Bool / two empty rows, Unit / one empty row) and with
+                # the same requirements: equal as objects, different on the wire
+                reqs = list(dict.fromkeys([*od["reqs"], en]))
+                ops.append({"ext": en, "name": on, "i": respell(od["i"]), "o": respell(od["o"]), "reqs": reqs, "args": [], "desc": draw(asts.DESCS), "respelled": True})
+            else:
+                ops.append({"ext": en, "name": on, "i": i, "o": o, "args": args, "desc": draw(asts.DESCS)})
         elif kind == "std":
             ops.append({"std": draw(st.sampled_from(["Not", "MakeTuple", "Noop", "DivMod"])), "ts": draw(st.lists(T, max_size=2)), "w": draw(st.integers(0, 6))})
         else:
@@ -140,7 +163,7 @@ def build(case):
         elif o["ext"] in pool:
             od = pool[o["ext"]].operations[o["name"]]
             op = ops.ExtOp(od, tys.FunctionType(mk_row(o["i"]), mk_row(o["o"])), [mk_arg(a) for a in o["args"]])
-            op = ops.Custom(op_name=o["name"], signature=tys.FunctionType(mk_row(o["i"]), mk_row(o["o"])), description=o["desc"], extension=o["ext"], args=[mk_arg(a) for a in o["args"]])
+            op = ops.Custom(op_name=o["name"], signature=tys.FunctionType(mk_row(o["i"]), mk_row(o["o"]), list(o.get("reqs", []))), description=o["desc"], extension=o["ext"], args=[mk_arg(a) for a in o["args"]])
         else:
             op = ops.Custom(op_name=o["name"], signature=tys.FunctionType(mk_row(o["i"]), mk_row(o["o"])), description=o["desc"], extension=o["ext"], args=[mk_arg(a) for a in o["args"]])
         m.hugr.add_node(op, f.parent_node)
@@ -385,6 +408,14 @@ def check(case) -> list[Fail]:
                 f.append(Fail("resolve-types", "bare-type:resolved-against-empty-registry", f"{tr0} -> {ttree(z)}"[:300]))
         if ttree(yy) != ttree(y):
             f.append(Fail("idempotent", "bare-type", ""))
+        # resolution never un-resolves: what is definition-backed stays so under any later registry
+        import hugr.ext as hext
+
+        try:
+            if ttree(y.resolve(hext.ExtensionRegistry())) != ttree(y):
+                f.append(Fail("resolve-types", "bare-type:resolved-type-changed-by-a-later-empty-registry", ""))
+        except Exception as e:  # noqa: BLE001
+            f.append(exc_fail("Type.resolve-raises", e))
         if y.type_bound() != x.type_bound():
             f.append(Fail("invisible", "bare-type-bound", f"{x.type_bound()} -> {y.type_bound()}"))
         e0, e1 = json.loads(x._to_serial_root().model_dump_json()), json.loads(y._to_serial_root().model_dump_json())
